@@ -335,7 +335,7 @@ impl Net {
 				Event::PaymentPathFailed { payment_failed_permanently, short_channel_id, .. } => format!("PaymentPathFailed perm={} scid={:?}", payment_failed_permanently, short_channel_id.map(|s| self.chans.iter().position(|c| c.3 == s))),
 				Event::PaymentPathSuccessful { .. } => "PaymentPathSuccessful".to_string(),
 				Event::PaymentForwarded { total_fee_earned_msat, claim_from_onchain_tx, .. } => format!("PaymentForwarded fee={:?} onchain={}", total_fee_earned_msat, claim_from_onchain_tx),
-				Event::HTLCHandlingFailed { failure_type, .. } => format!("HTLCHandlingFailed {}", format!("{:?}", failure_type).chars().take(40).collect::<String>()),
+				Event::HTLCHandlingFailed { failure_type, failure_reason, .. } => format!("HTLCHandlingFailed {} reason={}", format!("{:?}", failure_type).chars().take(40).collect::<String>(), format!("{:?}", failure_reason).chars().take(80).collect::<String>()),
 				Event::ChannelClosed { reason, .. } => { let r = match reason { ClosureReason::HolderForceClosed { .. } => "HolderForceClosed".to_string(), other => format!("{:?}", other).chars().take(80).collect() }; self.closed.push((i, r.clone())); format!("ChannelClosed {}", r) },
 				Event::SpendableOutputs { outputs, .. } => format!("SpendableOutputs n={}", outputs.len()),
 				Event::BumpTransaction(_) => "BumpTransaction".to_string(),
